@@ -13,21 +13,34 @@ from extract import ExtractionError, code_tokens, match_brace
 LEXER = "prqlc/prqlc-parser/src/lexer/mod.rs"
 LR = "prqlc/prqlc-parser/src/lexer/lr.rs"
 
-LABELS = ["NB1"]
-FUNCTIONS = ["based_digits_to_literal"]
+LABELS = ["NB1", "NB2", "NB3"]
+FUNCTIONS = ["based_digits_to_literal", "decimal_to_literal"]
 RLIMIT = 60
 
 ASSUMED = [
     {"what": "opaque external types", "keys": ["pub struct Opaque"]},
+    {"what": "radix_value(digits, base) < base^len(digits) (axiom_radix_value_bound, admitted: positional notation)", "keys": ["fn axiom_radix_value_bound", "spec fn radix_value"]},
     {"what": "std: iN / uN::from_str_radix of a text that consists of digits of the base only (no sign: the combinator in front of the closure admits nothing else) is Ok(n) with "
              "0 <= n <= MAX of that type, or Err on overflow; Literal is the real enum; ValueAndUnit is opaque",
      "keys": ["fn i64_from_str_radix", "fn u64_from_str_radix", "fn i128_from_str_radix"]},
+    {"what": "std: str::parse::<i64> / ::<f64> are external (a parsed f64 can be infinite: `1e999`); f64::is_finite is is_finite(), uninterpreted; the text handed to them "
+             "(`format!(..)` of the three parts without underscores) is opaque; chumsky's error value is opaque",
+     "keys": ["fn parse_i64", "fn parse_f64", "fn f64_is_finite", "spec fn is_finite", "fn number_text", "struct LexErr", "fn lex_error"]},
 ]
 TRUSTED = [
     "oracle (C12 / C02): `-x` on an integer literal is folded by static_eval_rq_operator as `Literal::Integer(-val)`, which overflows for i64::MIN only; decimal literals cannot "
     "be i64::MIN (the sign is not part of the literal and 9223372036854775808 lexes as a float); a based literal must therefore be non-negative as well (NB1)",
-    "the slice drops the chumsky combinators around the closure (prefix, digit filter, at_most(max_digits))",
+    "the slice drops the chumsky combinators around the closure (prefix, digit filter, at_most(max_digits)); that `.at_most(max_digits)` with the parameter max_digits is "
+    "there is checked textually, and every call site's (base, max_digits) gets a row NB3.<prefix>: base^max_digits <= 2^63, so the premise of NB3 holds for every accepted literal",
+    "oracle (C08): a float literal denotes one value and the SQL emitted for it evaluates to that value: an infinite f64 has no SQL spelling (`1e999` was emitted as the bare "
+    "word `inf`), so a decimal literal must lex to an integer or to a FINITE float (NB2) or be rejected",
 ]
+
+def DYNAMIC_LABELS():
+    import extract
+    src = extract.Extractor().read(LEXER)
+    return ["NB3." + p for p, _, _ in re.findall(r'parse_number_with_base\("(\w+)",\s*(\d+),\s*(\d+),', src)]
+
 
 PRELUDE = r"""
 #![allow(unused_imports, dead_code, unused_variables, unused_mut, unused_parens, non_snake_case)]
@@ -35,9 +48,27 @@ use vstd::prelude::*;
 use std::result::Result::*;
 verus! {
 """ + common_rq.OPAQUE + r"""
-#[verifier::external_body] pub fn i64_from_str_radix(digits: &str, base: u32) -> (r: Result<i64, ()>) ensures r is Ok ==> r->Ok_0 >= 0, { unimplemented!() }
+pub open spec fn ipow(b: int, e: nat) -> int decreases e { if e == 0 { 1 } else { b * ipow(b, (e - 1) as nat) } }
+// the number a text of digits spells in a base: below base^(number of digits)
+pub uninterp spec fn radix_value(digits: Seq<char>, base: int) -> nat;
+pub broadcast proof fn axiom_radix_value_bound(digits: Seq<char>, base: int)
+    requires base >= 2,
+    ensures #[trigger] radix_value(digits, base) < ipow(base, digits.len()),
+{ admit(); }
+#[verifier::external_body]
+pub fn i64_from_str_radix(digits: &str, base: u32) -> (r: Result<i64, ()>)
+    ensures r is Ok <==> radix_value(digits@, base as int) <= i64::MAX, r is Ok ==> r->Ok_0 == radix_value(digits@, base as int),
+{ unimplemented!() }
 #[verifier::external_body] pub fn u64_from_str_radix(digits: &str, base: u32) -> (r: Result<u64, ()>) { unimplemented!() }
 #[verifier::external_body] pub fn i128_from_str_radix(digits: &str, base: u32) -> (r: Result<i128, ()>) ensures r is Ok ==> r->Ok_0 >= 0, { unimplemented!() }
+pub uninterp spec fn is_finite(f: f64) -> bool;
+#[verifier::external_body] pub fn parse_i64(s: &String) -> (r: Result<i64, ()>) { unimplemented!() }
+#[verifier::external_body] pub fn parse_f64(s: &String) -> (r: Result<f64, ()>) { unimplemented!() }
+#[verifier::external_body] pub fn f64_is_finite(f: f64) -> (r: bool) ensures r == is_finite(f), { unimplemented!() }
+#[verifier::external_body] pub fn number_text(int_part: &str, frac_part: &String, exp_part: &String) -> (r: String) { unimplemented!() }
+#[verifier::external_body] pub struct LexErr { _p: u8 }
+#[verifier::external_body] pub fn lex_error() -> LexErr { unimplemented!() }
+pub open spec fn lit_ok(l: Literal) -> bool { l is Integer || (l is Float && is_finite(l->Float_0)) }
 """
 
 
@@ -60,14 +91,67 @@ def build(X):
     f.rewrite_re("R8", r"((?:i64|u64|i128)_from_str_radix\([^()]*\))\s*\.map\(\|(\w+)\| ((?:[^()]|\([^()]*\))*)\)\s*\.unwrap_or\(((?:[^()]|\([^()]*\))*)\)",
                  r"(match \1 { Ok(\2) => \3, Err(_) => \4 })", count=None, why="Result::map(closure).unwrap_or(default) desugared to a match")
     f.text = ("pub fn based_digits_to_literal(digits: &str, base: u32) -> (r: Literal)\n"
+              "    requires base >= 2,   // every call site: rows NB3.<prefix>\n"
               "    ensures\n"
               "        // a based literal is a non-negative integer: its negation cannot overflow\n"
               "        r is Integer && r->Integer_0 >= 0, // @NB1\n"
-              "{\n    " + f.text + "\n}\n")
-    return PRELUDE + "pub type ValueAndUnit2 = OpaqueT;\n" + lit.text + "\n" + f.text + "\n} // verus!\nfn main() {}\n"
+              "        // C08: a based literal that is accepted denotes the number its digits spell (no silent fallback)\n"
+              "        ipow(base as int, digits@.len()) <= 0x8000_0000_0000_0000 ==> r == Literal::Integer(radix_value(digits@, base as int) as i64), // @NB3\n"
+              "{\n    broadcast use axiom_radix_value_bound;\n    " + f.text + "\n}\n")
+    # ---- the callers: (prefix, base, max_digits) - as many digits as are accepted must fit an i64
+    whole = X.fn(LEXER, "parse_number_with_base")
+    X.items.remove(whole)
+    if not re.search(r"\.at_most\(max_digits\)", whole.text) or not re.search(r"\bmax_digits: usize,", whole.text):
+        raise ExtractionError("parse_number_with_base: the digit limit is no longer the parameter `max_digits` applied with `.at_most(max_digits)`")
+    src = X.read(LEXER)
+    calls = re.findall(r'parse_number_with_base\("(\w+)",\s*(\d+),\s*(\d+),', src)
+    if not calls:
+        raise ExtractionError("no call `parse_number_with_base(\"0x\", base, max_digits, ..)` with literal arguments found")
+    rows = ""
+    for prefix, base, maxd in calls:
+        # the power is evaluated here and handed to the verifier as a claim it re-computes (`by (compute)` can only confirm); the comparison is a plain obligation
+        val = int(base) ** int(maxd)
+        rows += ("proof fn row_%s() { assert(ipow(%s, %s) == %d) by (compute); assert(%s >= 2 && ipow(%s, %s) <= 0x8000_0000_0000_0000); } // @NB3.%s\n" % (prefix, base, maxd, val, base, base, maxd, prefix))
+    rows += ("pub proof fn lemma_fewer_digits(base: int, n: nat, max: nat) requires base >= 2, n <= max, ensures 1 <= ipow(base, n) <= ipow(base, max), decreases max,\n"
+             "{ if n == max { if n > 0 { lemma_fewer_digits(base, (n - 1) as nat, (n - 1) as nat); assert(ipow(base, n) == base * ipow(base, (n - 1) as nat)); assert(base * ipow(base, (n - 1) as nat) >= 1) by (nonlinear_arith) requires base >= 2, ipow(base, (n - 1) as nat) >= 1; } }\n"
+             "  else { lemma_fewer_digits(base, n, (max - 1) as nat); assert(ipow(base, max) == base * ipow(base, (max - 1) as nat)); assert(base * ipow(base, (max - 1) as nat) >= ipow(base, (max - 1) as nat)) by (nonlinear_arith) requires base >= 2, ipow(base, (max - 1) as nat) >= 1; } }\n")
+    f.rewrites.append({"rule": "table", "what": "%d call sites parse_number_with_base(prefix, base, max_digits, ..) with literal arguments: one row each" % len(calls)})
+    f.text += rows
+    # ---- decimal literals: the closure of number() that turns the three parts into a literal (`.map(|((int_part, frac_part), exp_part)| { .. })`, or `.try_map(|.., span| { .. })`)
+    g = X.fn(LEXER, "number")
+    m = re.search(r"\.(map|try_map)\(\|\(\(int_part, frac_part\), exp_part\)(, \w+)?\| \{", g.text)
+    if not m:
+        raise ExtractionError("number: the closure `|((int_part, frac_part), exp_part)| { .. }` that builds the literal was not found")
+    fallible = m.group(1) == "try_map"
+    toks = code_tokens(g.text)
+    k = next(i for i, t in enumerate(toks) if t[1] == m.end() - 1)
+    e = toks[match_brace(g.text, toks, k)][1]
+    g.name = "decimal_to_literal"
+    g.text = g.text[m.end():e].strip()
+    g.rewrites.append({"rule": "slice", "what": "body of the closure `|((int_part, frac_part), exp_part)%s| { .. }` of number() wrapped as fn decimal_to_literal" % (m.group(2) or "")})
+    g.rewrite_re("R5", r'format!\("\{\}\{\}\{\}", int_part, frac_part, exp_part\)\s*\.chars\(\)\s*\.filter\(\|&c\| c != \'_\'\)\s*\.collect::<String>\(\)', "number_text(int_part, &frac_part, &exp_part)", count=1,
+                 why="format! + iterator chain: the text of the number without underscores")
+    g.rewrite_re("R5", r"\bnum_str\s*\.parse::<(i64|f64)>\(\)", r"parse_\1(&num_str)", count=None, why="str::parse")
+    g.desugar_result_ctor_chains()
+    g.rewrite_re("R5", r"\b(\w+)\.is_finite\(\)", r"f64_is_finite(\1)", count=None, why="f64::is_finite")
+    g.rewrite_re("R5", r"Simple::new\([^()]*\)", "lex_error()", count=None, why="chumsky error value")
+    if fallible:
+        g.text = ("pub fn decimal_to_literal(int_part: &str, frac_part: String, exp_part: String%s) -> (r: Result<Literal, LexErr>)\n"
+                  "    ensures\n"
+                  "        // a decimal literal is an integer or a finite float - or it is rejected\n"
+                  "        r is Ok ==> lit_ok(r->Ok_0), // @NB2\n"
+                  "{\n    " % (", %s: OpaqueT" % m.group(2)[2:] if m.group(2) else "") + g.text + "\n}\n")
+    else:
+        g.text = ("pub fn decimal_to_literal(int_part: &str, frac_part: String, exp_part: String) -> (r: Literal)\n"
+                  "    ensures\n"
+                  "        // a decimal literal is an integer or a finite float\n"
+                  "        lit_ok(r), // @NB2\n"
+                  "{\n    " + g.text + "\n}\n")
+    return PRELUDE + "pub type ValueAndUnit2 = OpaqueT;\n" + lit.text + "\n" + f.text + "\n" + g.text + "\n} // verus!\nfn main() {}\n"
 
 
 # ----------------------------------------------------------------------------- replay on the real compiler
+FLOATS = ["from t\nselect {z = 1e999}\n", "from t\nselect {z = -1e999, y = 1.5e308, x = 2e308}\n", "from t\nfilter a < 123456789e400\n"]
 INPUTS = ["from t\nderive a = -0x8000000000000000\n", "from t\nfilter x > -(0x8000000000000000)\n", "from t\nderive a = -0xffffffffffff\n", "from t\nderive a = -0b11111111111111111111111111111111\n",
           "from t\nderive a = -0o777777777777\n", "from t\nderive {a = 0xff, b = -0x_deadbeef}\n"]
 
@@ -78,7 +162,43 @@ def _try(src):
     return {"input": src, "expected": "SQL or a list of errors (no panic)", "observed": out[:300], "failing": (not ok) and out.startswith("PANIC"), "replay_kind": "compile"}
 
 
+# based literals of every width: accepted ones must be emitted as the number their digits spell
+WIDE = ["0xff", "0x_deadbeef", "0xFFFFFFFFFFFF", "0x7FFFFFFFFFFFFFFF", "0xFFFFFFFFFFFFFFFF", "0x8000000000000000", "0x_DEADBEEFDEADBEEF", "0b1" + "0" * 31, "0b1" + "0" * 63, "0b" + "1" * 32,
+        "0o777777777777", "0o1" + "0" * 20, "0o7" * 1 + "7" * 20, "0xFFFFFFFFFFFFF", "0b" + "1" * 33]
+
+
+def _try_wide(lit):
+    import replaylib
+    src = "from t\nselect {v = %s}\n" % lit
+    body = lit[2:].replace("_", "")
+    want = int(body, {"x": 16, "b": 2, "o": 8}[lit[1]])
+    ok, out = replaylib.compile_prql(src, "sql.sqlite")
+    if not ok:
+        return {"input": src, "expected": "an error, or `SELECT %d AS v`" % want, "observed": out[:200], "failing": out.startswith("PANIC"), "replay_kind": "wide", "lit": lit}
+    m = re.search(r"SELECT\s+(\S+)\s+AS v", out)
+    return {"input": src, "expected": "an error, or `SELECT %d AS v`" % want, "observed": out[:200], "failing": (m is None) or m.group(1) != str(want), "replay_kind": "wide", "lit": lit}
+
+
+def _try_float(src):
+    import replaylib
+    ok, out = replaylib.compile_prql(src, "sql.sqlite")
+    bad = ok and re.search(r"\b(inf|nan)\b", out, re.I) is not None
+    return {"input": src, "expected": "an error, or SQL in which every number is written with digits", "observed": out[:300], "failing": bad or ((not ok) and out.startswith("PANIC")), "replay_kind": "float"}
+
+
 def replay(failure):
+    if "NB3" in failure.get("obligation", ""):
+        for lit in WIDE:
+            r = _try_wide(lit)
+            if r["failing"]:
+                return r
+        return {"failing": False}
+    if failure.get("obligation", "").endswith("NB2"):
+        for src in FLOATS:
+            r = _try_float(src)
+            if r["failing"]:
+                return r
+        return {"failing": False}
     for src in INPUTS:
         r = _try(src)
         if r["failing"]:
@@ -87,6 +207,10 @@ def replay(failure):
 
 
 def rerun(doc):
+    if doc.get("replay_kind") == "wide":
+        return _try_wide(doc["lit"])
+    if doc.get("replay_kind") == "float":
+        return _try_float(doc["input"])
     return _try(doc["input"])
 
 
@@ -98,5 +222,13 @@ def sweep():
     for src in INPUTS:
         r = _try(src)
         r["obligation"] = "lex_numbers.NB1"
+        out.append(r)
+    for src in FLOATS:
+        r = _try_float(src)
+        r["obligation"] = "lex_numbers.NB2"
+        out.append(r)
+    for lit in WIDE:
+        r = _try_wide(lit)
+        r["obligation"] = "lex_numbers.NB3"
         out.append(r)
     return out
